@@ -25,7 +25,8 @@ RULE = ("K-inject: every (axis, direction) of UniformPlaneSource (thorough: also
         "periodic column, faces none along the axis, 6..10 steps of forward() vs the Lean `line` op for both "
         "polarisation pairs. Oracle (property scenario, thresholds as stated): 3x3 periodic cross-section, 10-cell PML "
         "along the axis, homogeneous background out of (eps_r, mu_r) = (1,1), (2.25,1), (1.5,2), (1,1.5), (3,1.5) (quick: one "
-        "dielectric/vacuum, one MAGNETIC background and one source with a delayed-start OnOffSwitch (start_after_periods=3)), >= 15 cells per wavelength in the medium, diagonal polarisation, PoyntingFluxDetector planes behind and in "
+        "dielectric/vacuum, one MAGNETIC background and one source with a delayed-start OnOffSwitch (start_after_periods=3)), >= 15 cells per wavelength in the medium, diagonal polarisation declared through fixed_E_ or fixed_H_polarization_vector "
+        "(equal rates), PoyntingFluxDetector planes behind and in "
         "front, CW and pulse: time-integrated backward/forward power < 1e-3; quick: 2 of the 6 direction cases from the "
         "seed; thorough: all six x {CW, pulse} and GaussianPlaneSource (CW, radius 0.3..0.8 wavelengths, open space: PML on all faces, planes 10 cells away) < 10 %. "
         "non-trivial = every case (source on, non-zero increments).")
@@ -414,12 +415,16 @@ def k_line(ctx, c):
 MEDIA = [(1.0, 1.0), (2.25, 1.0), (1.5, 2.0), (1.0, 1.5), (3.0, 1.5)]     # homogeneous backgrounds (eps_r, mu_r)
 
 
-def gen_oracle(rng, axis, direction, profile, kind="uniform", medium=None, delayed=False):
+def gen_oracle(rng, axis, direction, profile, kind="uniform", medium=None, delayed=False, use_h=None, pol=None):
     th = rng.uniform(0.5, 1.1) * rng.choice([1.0, -1.0])      # diagonal polarisation
-    pol = [0.0, 0.0, 0.0]
-    pol[(axis + 1) % 3], pol[(axis + 2) % 3] = float(np.cos(th)), float(np.sin(th))
+    own = [0.0, 0.0, 0.0]
+    own[(axis + 1) % 3], own[(axis + 2) % 3] = float(np.cos(th)), float(np.sin(th))
+    pol = own if pol is None else [float(x) for x in pol]
     cpw = rng.choice([15, 16, 18, 20])
-    c = {"axis": axis, "direction": direction, "kind": kind, "profile": profile, "pol": pol, "use_h": False,
+    # the polarisation is declared through fixed_E_polarization_vector or fixed_H_polarization_vector at the same rate
+    h_declared = rng.chance(0.5)
+    use_h = h_declared if use_h is None else bool(use_h)
+    c = {"axis": axis, "direction": direction, "kind": kind, "profile": profile, "pol": pol, "use_h": use_h,
          "amp": 1.0, "widths": None, "along": "pml", "complex": False,
          "cells_per_wavelength": cpw, "oracle": True, "seed": rng.np_seed()}
     # dielectric AND magnetic homogeneous backgrounds: the injected E/H ratio must be the impedance sqrt(mu/eps) of the
@@ -495,9 +500,9 @@ def oracle_case(ctx, c):
     ratio = abs(bwd) / fwd if fwd > 0 else float("inf")
     ctx.extra.setdefault("oracle_ratios", []).append({"axis": c["axis"], "direction": c["direction"], "kind": c["kind"],
                                                       "profile": c["profile"], "eps_r": c["eps_r"], "mu_r": c["mu_r"], "switch": c.get("switch", "default"),
-                                                      "ratio": ratio, "steps": steps})
+                                                      "use_h": c["use_h"], "ratio": ratio, "steps": steps})
     ctx.case(nontrivial=("oracle", c["axis"], c["direction"], c["profile"], c["kind"]), oracle=c["kind"] + "/" + c["profile"],
-             oracle_medium=f"eps{c['eps_r']}/mu{c['mu_r']}", oracle_switch=c.get("switch", "default"),
+             oracle_medium=f"eps{c['eps_r']}/mu{c['mu_r']}", oracle_switch=c.get("switch", "default"), oracle_pol_given="H" if c["use_h"] else "E",
              **{f"oracle_axis{c['axis']}{c['direction']}": True})
     if not (fwd > 0) or not ratio < limit:
         ctx.violation(c, oracle_fails(c) or f"ratio {ratio:.3e}")
@@ -532,8 +537,10 @@ def run(ctx):
             oracle_case(ctx, gen_oracle(rng, a, d, rng.choice(["cw", "pulse"]), delayed=True))
     else:
         (a1, d1), (a2, d2) = order[0], order[1]
-        oracle_case(ctx, gen_oracle(rng, a1, d1, "cw", medium=rng.choice(MEDIA[:2])))
-        oracle_case(ctx, gen_oracle(rng, a2, d2, "pulse", medium=rng.choice(MEDIA[2:])))      # magnetic background
+        c1 = gen_oracle(rng, a1, d1, "cw", medium=rng.choice(MEDIA[:2]))
+        oracle_case(ctx, c1)
+        # magnetic background; polarisation declared the other way (E- vs H-given) than in the first scene
+        oracle_case(ctx, gen_oracle(rng, a2, d2, "pulse", medium=rng.choice(MEDIA[2:]), use_h=not c1["use_h"]))
         a3, d3 = order[2]
         oracle_case(ctx, gen_oracle(rng, a3, d3, "cw", medium=MEDIA[0], delayed=True))   # switched source
 
@@ -547,12 +554,19 @@ def search(ctx, hints):
             if h.get("oracle"):
                 todo.append(h)
             else:
+                # the property's own scenario for exactly this source: same axis, direction, declared polarisation (E- or
+                # H-given, same vector), medium, profile, switch kind, amplitude; then the other profile
                 med = (float(h.get("eps_r", 1.0)), float(h.get("mu_r", 1.0)))
                 sw = h.get("switch", "default") != "default"
-                for prof in ("cw", "pulse"):
-                    todo.append(gen_oracle(rng, h["axis"], h["direction"], prof, medium=med, delayed=sw))
+                first = h.get("profile", "cw")
+                for prof in (first, "pulse" if first == "cw" else "cw"):
+                    o = gen_oracle(rng, h["axis"], h["direction"], prof, medium=med, delayed=sw, use_h=h.get("use_h", False),
+                                   pol=h.get("pol"))
+                    o["amp"] = float(h.get("amp", 1.0))
+                    todo.append(o)
                 if h.get("kind") == "gauss":      # the 10 % bound is a statement about the carrier wavelength: CW only
-                    todo.append(gen_oracle(rng, h["axis"], h["direction"], "cw", kind="gauss"))
+                    todo.append(gen_oracle(rng, h["axis"], h["direction"], "cw", kind="gauss", use_h=h.get("use_h", False),
+                                           pol=h.get("pol")))
     seen = set()
     for i, (a, d) in enumerate(SIX):
         for prof in ("cw", "pulse"):
@@ -561,7 +575,8 @@ def search(ctx, hints):
     for (a, d) in SIX[:2]:
         todo.append(gen_oracle(rng, a, d, "cw", kind="gauss"))
     for c in todo:
-        key = (c["axis"], c["direction"], c["profile"], c["kind"], c["eps_r"], c["mu_r"], c.get("switch", "default"))
+        key = (c["axis"], c["direction"], c["profile"], c["kind"], c["eps_r"], c["mu_r"], c.get("switch", "default"),
+               c["use_h"])
         if key in seen:
             continue
         seen.add(key)
